@@ -10,7 +10,8 @@ implementations written in the harness (own structural key, own nearest-ancestor
               tree application; compress on/off; shared vcache/rcache across calls; F(e) dispatch
   Transformer random tables of expression-rewriting handlers incl. reuse_variable / reconstruct_variable, several
               transformer objects applied one after the other to expressions sharing variables
-  DAGTraverser  random singledispatch registrations (post-order / pre-order rules)
+  DAGTraverser  random singledispatch registrations (post-order / pre-order rules), and rules that pass a context
+                to the operands through keyword arguments (a subset of them, in either order)
 All generated algorithm classes deliberately share one module and one __qualname__.
 """
 
@@ -507,6 +508,97 @@ def check_dagtraverser(case, exprs, K, rng):
     return used
 
 
+def check_dagtraverser_context(case, exprs, K, rng):
+    """Rules that hand a context down to the operands through keyword arguments (some or all of them, in either
+    order, the rest defaulting): the memoised traversal must equal the recursive one keyed on the full context."""
+    from functools import singledispatchmethod
+
+    from ufl.classes import Expr
+    from ufl.corealg.dag_traverser import DAGTraverser
+    from ufl.corealg.traversal import unique_pre_traversal
+
+    KINDS = ["keep", "keep", "seta", "setb", "ab", "ba", "none", "cut"]
+    for t in range(case["ntables"]):
+        e = exprs[t % len(exprs)]
+        classes = []
+        for n in unique_pre_traversal(e):
+            for c in type(n).__mro__:
+                if isinstance(c, type) and issubclass(c, Expr) and c not in classes:
+                    classes.append(c)
+        table = {}
+        for c in classes:
+            if c is Expr or rng.random() < 0.4:
+                kind = KINDS[int(rng.integers(0, len(KINDS)))]
+                if c is Expr and kind == "cut":
+                    kind = "keep"
+                table[c] = (kind, int(rng.integers(1, 3)), int(rng.integers(1, 3)))
+
+        class ContextAlgorithm(DAGTraverser):
+            @singledispatchmethod
+            def process(self, o, a=0, b=0):
+                return super().process(o)
+
+        def child_context(kind, va, vb, a, b):
+            return {"keep": (a, b), "seta": (va, 0), "setb": (0, vb), "ab": (va, vb), "ba": (va, vb), "none": (0, 0)}[kind]
+
+        def make_rule(c, kind, va, vb):
+            def rule(self, o, a=0, b=0):
+                if kind == "cut":
+                    return f"{c.__name__}<{a},{b}>[{type(o).__name__}]"
+                if kind == "keep":
+                    ops = [self(op, a=a, b=b) for op in o.ufl_operands]
+                elif kind == "seta":
+                    ops = [self(op, a=va) for op in o.ufl_operands]
+                elif kind == "setb":
+                    ops = [self(op, b=vb) for op in o.ufl_operands]
+                elif kind == "ab":
+                    ops = [self(op, a=va, b=vb) for op in o.ufl_operands]
+                elif kind == "ba":
+                    ops = [self(op, b=vb, a=va) for op in o.ufl_operands]
+                else:
+                    ops = [self(op) for op in o.ufl_operands]
+                return f"{c.__name__}<{a},{b}>({','.join(ops)})"
+            return rule
+
+        for c, (kind, va, vb) in table.items():
+            ContextAlgorithm.process.register(c)(make_rule(c, kind, va, vb))
+
+        memo = {}
+
+        def ref(n, a, b):
+            stack = [(n, a, b)]
+            while stack:
+                x, a_, b_ = stack[-1]
+                key = (id(x), a_, b_)
+                if key in memo:
+                    stack.pop()
+                    continue
+                c = next(c for c in type(x).__mro__ if c in table)
+                kind, va, vb = table[c]
+                if kind == "cut":
+                    memo[key] = f"{c.__name__}<{a_},{b_}>[{type(x).__name__}]"
+                    stack.pop()
+                    continue
+                ca, cb = child_context(kind, va, vb, a_, b_)
+                todo = [(o, ca, cb) for o in x.ufl_operands if (id(o), ca, cb) not in memo]
+                if todo:
+                    stack.extend(todo)
+                    continue
+                memo[key] = f"{c.__name__}<{a_},{b_}>({','.join(memo[(id(o), ca, cb)] for o in x.ufl_operands)})"
+                stack.pop()
+            return memo[(id(n), a, b)]
+
+        exp = ref(e, 0, 0)
+        T = ContextAlgorithm(compress=case["compress"])
+        try:
+            got = T(e)
+        except RecursionError:
+            raise Discard("expression too deep for the recursive DAGTraverser")
+        if got != exp:
+            raise Violation(f"DAGTraverser with keyword context differs from recursive application: {str(got)[:150]} vs {str(exp)[:150]}",
+                            {"kind": "dagtraverser-context"})
+
+
 def check_case(case):
     import ufl
 
@@ -551,6 +643,7 @@ def check_case(case):
         used = check_transformer(case, exprs, K, rng, b)
     else:
         used = check_dagtraverser(case, exprs, K, rng)
+        check_dagtraverser_context(case, exprs, K, rng)
     shared = size > ndistinct + sum(1 for _ in ufl.corealg.traversal.traverse_unique_terminals(e))
     labels = ["algo:" + case["algo"], "kind:" + case["kind"]] + (["shared"] if shared else [])
     return {"nontrivial": shared and len(used) >= 3, "labels": labels}
